@@ -47,7 +47,8 @@ def axes(rank):
 
 def node_cases(thorough):
     """Yield (name, kwargs) describing one node instance; JSON-able."""
-    ent = ["exp", "log", "square", "softplus", "sigmoid", "scaled_sigmoid", "clamp_min", "clamp_max", "clamp_both", "conjugate"]
+    ent = ["exp", "log", "square", "softplus", "sigmoid", "scaled_sigmoid", "clamp_min", "clamp_max", "clamp_both", "conjugate",
+           "clamp_zero_min", "clamp_zero_max", "clamp_zero_only", "scaled_sigmoid_zero"]
     for s in shapes():
         for n in ent:
             yield {"node": n, "shape": s}
@@ -174,11 +175,15 @@ def build_node(spec, rng):
         "clamp_max": lambda: (P.ClampParameter(s, vmax=0.5), L1()),
         "clamp_both": lambda: (P.ClampParameter(s, vmin=-0.5, vmax=0.5), L1()),
         "conjugate": lambda: (P.ConjugateParameter(s), L1(cplx=True)),
+        "clamp_zero_min": lambda: (P.ClampParameter(s, vmin=0.0, vmax=1.0), L1()),
+        "clamp_zero_max": lambda: (P.ClampParameter(s, vmin=-1.0, vmax=0.0), L1()),
+        "clamp_zero_only": lambda: (P.ClampParameter(s, vmin=0.0), L1()),
+        "scaled_sigmoid_zero": lambda: (P.ScaledSigmoidParameter(s, vmin=0.0, vmax=2.0), L1(lo=-3, hi=3)),
         "mixing": lambda: (P.MixingWeightParameter(s), L1()),
     }
     if n in un:
         node, t = un[n]()
-        if n.startswith("clamp"):
+        if n in ("clamp_min", "clamp_max", "clamp_both"):
             flat = vals[t].reshape(-1)
             flat[0] = -0.5
             if flat.size > 1:
